@@ -11,13 +11,16 @@ def splitCh (sep : Char) : Str → Str → List Str
 
 def words (s : Str) : List Str := (splitCh ' ' s []).filter (fun w => !w.isEmpty)
 
-def permOf (s : Str) : Option Perm :=
-  if s = ['u'] then some .pub else if s = ['r'] then some .priv else if s = ['t'] then some .prot else none
+/-- access keywords of a declaration, one letter each, in the order FORD meets them
+    (`u` public, `r` private, `t` protected; anything else, e.g. `-`, is no keyword) -/
+def permsOf (s : Str) : List Perm :=
+  s.filterMap (fun c => if c = 'u' then some .pub else if c = 'r' then some .priv
+                        else if c = 't' then some .prot else none)
 
 def declOf (s : Str) : Decl :=
   match splitCh ':' s [] with
-  | [n, k, a] => { name := n, kind := natOf k, acc := permOf a }
-  | _ => { name := s, kind := 0, acc := none }
+  | [n, k, a] => { name := n, kind := natOf k, accs := permsOf a }
+  | _ => { name := s, kind := 0, accs := [] }
 
 /-- one field per USE statement (the statement text as FORD's reader yields it);
     statements USE_RE does not match are not recorded by FORD -/
